@@ -13,3 +13,11 @@ package file
 //@   ensures [no-meta] {C17} forall k int :: 0 <= k && k < len(paths) ==> !hasPrefix(paths[k], ".goit/")
 //@   loop 0:
 //@     invariant forall k int :: 0 <= k && k < len(filePaths) ==> !hasPrefix(filePaths[k], ".goit/")
+
+// The search for the repository root climbs towards the file-system root and stops there (C18: no command hangs): each
+// recursive call is made on a strictly shorter absolute path.
+//@ func FindGoitRoot
+//@   returns root, err
+//@   pure
+//@   decreases len(absPath(path))
+
